@@ -17,8 +17,8 @@ CLAIMS = {
     "C20": dict(text="Proved for the model: configuring from a result that is not SUCCESS is refused and leaves the task unchanged; from a SUCCESS result the work "
                      "amount is the duration (minus the distinct absence steps below the run length when asked) and the rate is parent unit / sub unit "
                      "(C20_refused, C20_configured, C20_duration_remove, C20_rate); an automatic component-free task with work D > 0 and rate r that becomes "
-                     "READY is WORKING from the end of that very iteration, loses r per active step, stays WORKING unchanged through inactive (project "
-                     "absence) steps, is WORKING at exactly the recorded steps up to the n-th active one with n = ceil(D/r), FINISHED from the next, and "
+                     "READY is WORKING from the end of that very iteration if it is an active step (else from the first active step on: nothing starts "
+                     "at a project absence step), loses r per active step, stays WORKING unchanged through inactive (project absence) steps, is WORKING at exactly the recorded steps up to the n-th active one with n = ceil(D/r), FINISHED from the next, and "
                      "never holds a worker (C20_starts, C20_working, C20_occupation, C20_occupation_ends, C20_log, C20_no_worker, C20_steps). "
                      "Exact for unit ratios that are powers of two (float division otherwise not modelled); duration 0 is the kept finding F27.",
                 design="6 C20", technique="Lean 4 proof (iteration-level recurrence for automatic tasks, ceiling arithmetic on Rat) + real sub-project files, setter and parent-run correspondence"),
@@ -46,7 +46,7 @@ CLAIMS = {
                 design="6 C18", technique="Lean 4 proof (list insert/erase algebra with growing guards) + remove/insert histories on the real code mirrored in the model"),
     "C06": dict(text="Proved for the model: at every `updated` state no task is NONE with its start gate open and no task is WORKING with no work left and "
                      "its finish gate open (C06_ready_run, C06_finish_run, C06_finish_next); after check_state(WORKING) no component-free automatic task is "
-                     "READY, at every recorded step (C06_auto_run); idle-worker clause for tasks without facility: a worker still FREE and unassigned after "
+                     "READY, at every recorded working step (and at absence steps when automatic tasks are performed there) (C06_auto_run); idle-worker clause for tasks without facility: a worker still FREE and unassigned after "
                      "the allocation pass cannot be added to any READY/WORKING non-automatic task it is skilled and targeted for (C06_idle, C06_idle_step, "
                      "C06_idle_run). The worker-facility-pair form of the idle clause is NOT a theorem (search only).",
                 design="6 C06", technique="Lean 4 proof (post-conditions of the update block, fold argument over the allocation pass: refusals persist) + phase-level correspondence"),
@@ -97,12 +97,17 @@ CLAIMS = {
                      "a waiting successor: machine-checked example, consistent with the property's 'worker of its own' premise), facility/component "
                      "placement — liveness is checked by search only (explicit feasibility test and bound in the predicate).",
                 design="6 C05", technique="Lean 4 proof of the loop skeleton and of the unservable-task invariant + whole-run correspondence (status, time)"),
-    "C10": dict(text="Clauses 1-2 proved for the model: at a project absence step nothing is allocated, non-automatic tasks keep their remaining work, "
+    "C10": dict(text="Proved for the model. Clauses 1-2: at a project absence step nothing is allocated, non-automatic tasks keep their remaining work, "
                      "automatic ones progress iff the flag is set, every resource is logged ABSENCE and every cost entry is 0 (C10_absence_step, "
-                     "C10_run_absence_entry, C10_run_absence_rem); an individually absent resource is ABSENCE, contributes 0 and costs 0 "
-                     "(C10_individual_worker/fac). Clause 3 (removing the absence steps gives the absence-free run) is NOT a theorem: it is checked on "
-                     "real histories by search only — partial.",
-                design="6 C10", technique="Lean 4 proof from the working-gating of the step + correspondence on absence, cost, perform, record phases"),
+                     "C10_absence_step_idle, C10_absence_live, C10_run_absence_entry, C10_run_absence_rem); an individually absent resource is ABSENCE, "
+                     "contributes 0 and costs 0 (C10_individual_worker/fac). Clause 3 (C10_removal): for a model without individual absences and without "
+                     "automatic tasks in components, flag off, every absence list (empty, runs, duplicates, beyond the end): if the run with absences "
+                     "ends in SUCCESS, remove_absence_time_list of its result has exactly the logs, time and status of the absence-free run (simulation "
+                     "relation between the two runs, PERT shift invariance, log-row lemmas). Extra hypotheses of C10_removal: rule is not FIFO (kept "
+                     "finding F16: FIFO counts READY log entries, which absence steps inflate) and TSLACK only on finish-to-start networks (shift "
+                     "invariance of the backward pass is proved there only; searched elsewhere). The proof needed a repair of /repo (c33e3f4: "
+                     "check_state(WORKING) ran at absence steps; witnesses in corpus/c10_removal.json).",
+                design="6 C10", technique="Lean 4 proof (working-gating of the step; simulation relation between the run with and without absence) + correspondence on absence, cost, perform, record phases + removal histories"),
     "C13": dict(text="Proved for the model on flat products (PlaceWF: no parent/child links, sizes and capacities >= 0, task/component links and "
                      "facility/workplace links consistent): PlaceInv (component listed exactly where it reports being placed, at most one workplace, "
                      "capacity never exceeded, facilities of a task belong to the workplace where its component is) at every state of every run "
